@@ -20,7 +20,7 @@ from pycoin.satoshi import checksigops as _cso
 from pycoin.coins.SolutionChecker import ScriptError
 
 PROP = "C05"
-EXTRA_PROPS = ["C05compose"]   # templates sound+complete w.r.t. Core's VerifyScript (see DESIGN.md section 0)
+EXTRA_PROPS = ["C05compose", "C05ec"]   # templates sound+complete w.r.t. Core's VerifyScript (see DESIGN.md section 0); C05ec: ECDSA interface instantiated for secp256k1
 DRIVER = "C05"
 INTERACTIVE = True
 RULE = ("correspondence: one driver line per signing pass (sign_tx: whole-transaction state before -> after), per "
